@@ -86,6 +86,8 @@ pub fn run(ctx: &Ctx) {
     // pushes whose immediate carries an effect opcode (or the Push opcode itself) at each of the 8 byte positions
     let mut palette: Vec<Op> = effectful.clone();
     palette.push(asm::Stack::Pop.into());
+    // ops after which execution may stop or continue elsewhere: the scan is about what the program contains, not about what runs
+    palette.extend([Op::from(asm::TotalControlFlow::Halt), asm::TotalControlFlow::HaltIf.into(), asm::TotalControlFlow::PanicIf.into(), asm::TotalControlFlow::JumpIf.into(), asm::Compute::ComputeEnd.into()]);
     palette.push(asm::Stack::Push(0).into());
     for b in eff_bytes.iter().chain([&push_byte]) {
         for pos in 0..8 {
